@@ -71,7 +71,8 @@ theorem lt_size_of_some {t : Tree} {x : Nat} {w : Win} (h : t.wins[x]? = some w)
 theorem newWindow_step (content : Id → Int → Int → Cell) (screen : Int → Int → Cell) (t t' : Tree) (parent id : Id)
     (rect : Rect) (rootParent hidden lowest steal : Bool) (hI : TInv content screen t)
     (h : newWindow t (t.wins.size + 1) parent rect rootParent hidden lowest steal = .ok (t', id)) :
-    TInv content screen t' ∧ RootStep t t' ∧ t'.wins.size = t.wins.size + 1 ∧ id = t.wins.size := by
+    TInv content screen t' ∧ RootStep t t' ∧ t'.wins.size = t.wins.size + 1 ∧ id = t.wins.size ∧
+      (ParentListed t → ParentListed t') := by
   obtain ⟨p, r, ppw, hgp, hid, hd⟩ := newWindow_shape t t' _ parent id rect rootParent hidden lowest steal h
   have hppw := get_ok hgp
   have hplt : @LT.lt Nat _ p t.wins.size := lt_size_of_some hppw.1
@@ -173,28 +174,40 @@ theorem newWindow_step (content : Id → Int → Int → Cell) (screen : Int →
       cs.Nodup →
       (if w0.isVisible then expose (WinTree.set t1 p { ppw with children := cs }) (t.wins.size + 1) p (some w0.rect)
         else pure (WinTree.set t1 p { ppw with children := cs })) = .ok t' →
-      TInv content screen t' ∧ RootStep t t' ∧ t'.wins.size = t.wins.size + 1 ∧ id = t.wins.size := by
-    intro cs hfilter hnd hh
-    obtain ⟨a1, a2, a3⟩ := relist_step content screen t1 t' p t.wins.size ppw w0 cs (t.wins.size + 1) hI1 (by omega) h1_p h1_new
+      t.wins.size ∈ cs →
+      TInv content screen t' ∧ RootStep t t' ∧ t'.wins.size = t.wins.size + 1 ∧ id = t.wins.size ∧
+        (ParentListed t → ParentListed t') := by
+    intro cs hfilter hnd hh hcm
+    obtain ⟨a1, a2, a3, a4⟩ := relist_step content screen t1 t' p t.wins.size ppw w0 cs (t.wins.size + 1) hI1 (by omega) h1_p h1_new
       (Nat.ne_of_lt hplt) (Nat.ne_of_gt h0lt) honly hfilter hnd (fun _ => ⟨hw0f.1, hw0f.2.1, hplt⟩) hh
-    refine ⟨a1, ?_, by rw [a3, set_size, h1_size], hid⟩
-    rcases a2 with a2 | ⟨x, y, z⟩
-    · exact Or.inl (by rw [a2, h1_root])
-    · exact Or.inr ⟨x, y, by rw [z, h1_root]⟩
+    refine ⟨a1, ?_, by rw [a3, set_size, h1_size], hid, fun hpl => a4 ?_ ?_⟩
+    · rcases a2 with a2 | ⟨x, y, z⟩
+      · exact Or.inl (by rw [a2, h1_root])
+      · exact Or.inr ⟨x, y, by rw [z, h1_root]⟩
+    · intro x w q hx hw hq
+      rcases hcase x w hw with ⟨_, hw'⟩ | ⟨hx', _⟩
+      · obtain ⟨qw, hqw, hm⟩ := hpl x w q hw' hq
+        exact ⟨qw, by rw [h1_old q (lt_size_of_some hqw)]; exact hqw, hm⟩
+      · exact absurd hx' hx
+    · intro q hq
+      rw [hw0f.1] at hq
+      exact ⟨(Option.some.inj hq).symm, hcm⟩
   cases lowest with
   | true =>
     simp only [if_true, pure, Pure.pure] at hd
-    refine hfin _ ?_ ?_ hd
+    refine hfin _ ?_ ?_ hd ?_
     · rw [List.filter_append]; simp
     · exact List.nodup_append.2 ⟨hok.nodup p ppw hppw.1, List.pairwise_singleton _ _, by
         intro a ha b hb
         simp at hb; subst hb
         exact fun hab => hnotin (by rw [← hab]; exact ha)⟩
+    · simp
   | false =>
     simp only [Bool.false_eq_true, if_false, pure, Pure.pure] at hd
-    refine hfin _ ?_ ?_ hd
+    refine hfin _ ?_ ?_ hd ?_
     · simp [List.filter_cons]
     · exact List.nodup_cons.2 ⟨hnotin, hok.nodup p ppw hppw.1⟩
+    · simp
 
 end WinFlush
 end Tickit
